@@ -43,3 +43,63 @@ package store
 //@   mode bv
 //@   ensures (a < b) == lexlt(a, b)
 //@   ensures (a == b) == (byt(a,0) == byt(b,0) && byt(a,1) == byt(b,1) && byt(a,2) == byt(b,2) && byt(a,3) == byt(b,3) && byt(a,4) == byt(b,4) && byt(a,5) == byt(b,5) && byt(a,6) == byt(b,6) && byt(a,7) == byt(b,7))
+
+// ---------------------------------------------------------------------------
+// C24: the transaction bodies (function literals <function>$1) as protocols over
+// the bbolt API (trusted: Bucket.NextSequence returns strictly increasing,
+// never reused numbers and is the only thing besides SetSequence that changes
+// the counter; Cursor.First/Next enumerate the bucket in key order). The log
+// lists every mutating Bucket method, so "exactly these calls" also means that
+// nothing else was written.
+
+//@ func marshalScore
+//@   trusted
+//@   pure
+//@ func unmarshalScore
+//@   trusted
+//@   pure
+
+// Deleting a command removes exactly the entry of that sequence number and leaves
+// the sequence counter alone (numbers are never reused, even after deletion).
+//@ func dbStore.DelCmd$1
+//@   props C24
+//@   nosafety
+//@   log Tx.Bucket marshalSeq Bucket.Delete Bucket.Put Bucket.SetSequence Bucket.NextSequence Bucket.DeleteBucket Bucket.CreateBucket
+//@   exit [deletes-exactly-that-entry] ncalls == 3 && callis(0, "Tx.Bucket") && callis(1, "marshalSeq") && callis(2, "Bucket.Delete")
+//@   exit [keyed-by-the-sequence-number] (seq >= 0 ==> callarg(1).(uint64) == seq) && callarg(2) === callres(1) && result === callerr(2)
+
+// Adding a command takes a fresh number from the bucket's counter and stores the
+// command under the big-endian key of exactly that number.
+//@ func dbStore.AddCmd$1
+//@   props C24
+//@   nosafety
+//@   log Tx.Bucket Bucket.NextSequence marshalSeq Bucket.Put Bucket.Delete Bucket.SetSequence Bucket.DeleteBucket Bucket.CreateBucket
+//@   exit [fresh-number-from-the-counter] callis(0, "Tx.Bucket") && callis(1, "Bucket.NextSequence") && ncallsof("Bucket.NextSequence") == 1 && ncallsof("Bucket.SetSequence") == 0
+//@   exit [counter-failure-stores-nothing] !(callerr(1) === nil) ==> ncalls == 2 && result === callerr(1)
+//@   exit [stored-under-that-number] callerr(1) === nil ==> ncalls == 4 && callis(2, "marshalSeq") && callarg(2) === callres(1) && callis(3, "Bucket.Put") && callarg(3) === callres(2) && result === callerr(3) && seq == callres(1).(uint64)
+
+// The next sequence number is the counter plus one; reading it changes nothing.
+//@ func dbStore.NextCmdSeq$1
+//@   props C24
+//@   nosafety
+//@   log Tx.Bucket Bucket.Sequence Bucket.NextSequence Bucket.SetSequence Bucket.Put Bucket.Delete
+//@   exit [counter-plus-one-read-only] ncalls == 2 && callis(1, "Bucket.Sequence") && (callres(1).(uint64) < MaxInt ==> seq == callres(1).(uint64) + 1)
+
+// A visit decays every stored score by the decay factor and then adds the
+// increment scaled by the visit's factor to the visited directory (starting
+// from 0 for a directory not seen before).
+//@ func dbStore.AddDir$1
+//@   props C24
+//@   nosafety
+//@   log Tx.Bucket Bucket.Cursor Cursor.First Cursor.Next unmarshalScore marshalScore Bucket.Put Bucket.Get Bucket.Delete
+//@   loop 1 invariant ncalls >= 3
+//@   loop 1 step [every-score-decayed] ncalls == old(ncalls) + 4 && callis(old(ncalls), "unmarshalScore") && callarg(old(ncalls)) === old(v) && callis(old(ncalls) + 1, "marshalScore") && callarg(old(ncalls) + 1).(float64) === callres(old(ncalls)).(float64) * DirScoreDecay && callis(old(ncalls) + 2, "Bucket.Put") && callarg(old(ncalls) + 2) === old(k) && callarg1(old(ncalls) + 2) === callres(old(ncalls) + 1) && callis(old(ncalls) + 3, "Cursor.Next")
+//@   exit [visited-score-stored-last] callis(ncalls - 1, "Bucket.Put") && callis(ncalls - 2, "marshalScore") && callarg1(ncalls - 1) === callres(ncalls - 2) && result === callerr(ncalls - 1)
+//@   exit [first-visit-starts-from-zero] callis(ncalls - 3, "Bucket.Get") ==> callarg(ncalls - 2).(float64) === tofloat(0) + tofloat(10) * incFactor
+//@   exit [later-visit-adds-to-the-stored-score] callis(ncalls - 3, "unmarshalScore") ==> callis(ncalls - 4, "Bucket.Get") && callarg(ncalls - 3) === callres(ncalls - 4) && callarg(ncalls - 2).(float64) === callres(ncalls - 3).(float64) + tofloat(10) * incFactor
+
+// Directory listings are ordered by descending score.
+//@ func dirList.Less
+//@   props C24
+//@   requires 0 <= i && i < len(dl) && 0 <= j && j < len(dl)
+//@   ensures result == (dl[i].Score < dl[j].Score)
